@@ -543,6 +543,26 @@ fn boxed_gcd(cx: &mut Cx, iters: usize, maxl: usize) {
     }
 }
 
+// every type alias of the crate: `impl_uint_aliases!` generates `PrecomputeInverter for Odd<Uxxx>` per table entry, with
+// the number of 62-bit unsaturated limbs computed from the bit count spelled in the table
+macro_rules! alias_inverter {
+    ($name:ident, $bits:literal, $cx:expr) => {{
+        let cx: &mut Cx = $cx;
+        const N: usize = $bits / 64;
+        let mut m = nat(&mut cx.rng, N); m[0] |= 1; m[N - 1] |= TOP;
+        let a = if N % 3 == 0 { let mut v = vec![MAX; N]; v[0] = MAX - 1; v } else { nat(&mut cx.rng, N) };
+        let om: Odd<vh::cb::$name> = odd::<N>(&m).unwrap();
+        let ua: vh::cb::$name = u::<N>(&a);
+        let form = format!("{}.Odd.precompute_inverter.invert", stringify!($name));
+        cx.call(ev_inv(&form, N, &a, &m), || { let inv = om.precompute_inverter(); out(inv.invert(&ua).into()) });
+        let form = format!("{}.inv_odd_mod", stringify!($name));
+        cx.call(ev_inv(&form, N, &a, &m), || out(ua.inv_odd_mod(&om).into()));
+    }};
+}
+fn all_aliases(cx: &mut Cx) {
+    vh::for_each_alias!(alias_inverter, cx);
+}
+
 fn main() {
     let mut cx = Cx::from_args("C10");
     let s = cx.scale;
@@ -556,6 +576,7 @@ fn main() {
         w16::inv(&mut cx, 24 * s);
         w32::inv(&mut cx, 8 * s);
     }
+    if cx.want("alias") { all_aliases(&mut cx); }
     if cx.want("m1") {
         w1::m1(&mut cx, s);
         w2::m1(&mut cx, s);
